@@ -941,6 +941,23 @@ def build_fn(ctx, unit, fs):
         fn_label = fs.opts.get("as") or f"{it.name}_loop{ordn}_body"
         it.name = fn_label
         parent_impl = fs.opts.get("impl_as", parent_impl).replace("~", " ")
+    tail_cut = None
+    if fs.opts.get("slice_tail"):
+        # TAIL SLICING: the statements from an anchor to the end of the function body become a synthetic function whose
+        # parameters are the variables they read (sparams=, sret=). The head half of the same function is extracted separately
+        # with the same text replaced by a call to this function (O1 to_body_end=1): the function is verified in two halves
+        # that meet at the tail's contract. What this drops: nothing of the text; the two halves are separate Verus functions.
+        anchor_ = fs.opts["slice_tail"].replace("~", " ")
+        s_, _e = find_anchor(sf, toks[it.body_open].end, toks[it.body_close].start, anchor_, int(fs.opts.get("slice_nth", 1)), fs.path)
+        bl, bh = it.body_open, it.body_close
+        fake = rustlex.Item("fn", "slice", toks[bl].start, toks[bh].end, toks[bl].start, bl, bh + 1, bl, bh, "")
+        arm = dict(item=fake, pre="", pre_line=0, tail="", tail_line=0,
+                   params=fs.opts["sparams"].replace("~", " "), ret=fs.opts.get("sret", "()").replace("~", " "))
+        tail_cut = (toks[bl].end, s_)
+        fn_label = fs.opts.get("as") or f"{it.name}__tail"
+        it = fake
+        it.name = fn_label
+        parent_impl = fs.opts.get("impl_as", parent_impl).replace("~", " ")
     has_body = it.body_open is not None
     sig_end_tok = it.body_open if has_body else it.tok_hi - 1   # `{` or `;`
     ctx.foreach_iter = {}
@@ -950,6 +967,9 @@ def build_fn(ctx, unit, fs):
             if 1 <= ordn_ <= len(pre_loops) and pre_loops[ordn_ - 1][4] == "for_each" and ls_.get("iter"):
                 ctx.foreach_iter[pre_loops[ordn_ - 1][0]] = ls_["iter"]
     edits = common_rewrites(ctx, sf, it.tok_lo, it.tok_hi, "fn", fs.opts)
+    if tail_cut:
+        edits = [e_ for e_ in edits if e_.start >= tail_cut[1]]
+        edits.append(Edit(tail_cut[0], tail_cut[1], "\n"))
     in_trait_impl = bool(parent_impl) and (parent_impl.startswith("trait") or " for " in (" " + parent_impl + " "))
     if not arm:
         edits += ensure_pub(sf, it, in_trait_impl)
@@ -1064,6 +1084,10 @@ def build_fn(ctx, unit, fs):
     if spec_segs:
         multi.append((ins_off, spec_segs, 0))
     if has_body and not fs.opts.get("external_body"):
+        if fs.opts.get("hide"):
+            # hide=f,g : the definitions of these spec functions stay folded in this function body (the function only hands the facts on)
+            hs = "".join(f"hide({n}); " for n in fs.opts["hide"].split(","))
+            multi.append((toks[it.body_open].end, [Seg("\n" + hs + "\n", ("ins", fn_label, "hide", None))], 0.5))
         if unit.autoproof and not fs.opts.get("noauto"):
             multi.append((toks[it.body_open].end, [Seg("\nproof { " + " ".join(unit.autoproof) + " }\n", ("ins", fn_label, "autoproof", None))], 0.9))
         for ls_ in fs.loops.values():
@@ -1189,7 +1213,10 @@ def build_fn(ctx, unit, fs):
         extra = (", " + bind.replace("~", " ")) if bind else ""
         sig = f"pub fn {fn_label}({arm['params']}{extra}) -> (r: {arm['ret']})"
         segs.insert(0, Seg(sig + " ", ("ins", fn_label, "arm-signature", None)))
-        ctx.fire("ARM", sf, toks[it.body_open].start, f"arm {fs.opts.get('arm_state', 'loop ' + str(fs.opts.get('slice_loop')))} / {fs.opts.get('arm_pat', 'body')} sliced into {fn_label}")
+        if tail_cut:
+            ctx.fire("TAIL", sf, tail_cut[1], f"statements from {fs.opts['slice_tail']!r} to the end of the body sliced into {fn_label}")
+        else:
+            ctx.fire("ARM", sf, toks[it.body_open].start, f"arm {fs.opts.get('arm_state', 'loop ' + str(fs.opts.get('slice_loop')))} / {fs.opts.get('arm_pat', 'body')} sliced into {fn_label}")
     attrs = "".join(a + "\n" for a in fs.attrs)
     if fs.opts.get("attr"):
         attrs += fs.opts["attr"].replace("~", " ") + "\n"
@@ -1338,7 +1365,11 @@ def site_rewrite(ctx, sf, it, rule, anchor, nth, ropts, what):
         # opaque statement: replace anchor..(through `;`) by a call to an external_body stub
         k = b
         end = e
-        if toks[b - 1].text == ";":
+        if ropts.get("to_body_end"):
+            # TAIL (head half): everything from the anchor to the end of the function body is replaced by the call (to the
+            # tail function that slice_tail= extracts from exactly this text, verified in the same unit)
+            end = hi
+        elif toks[b - 1].text == ";":
             end = e
             call_semi = True
         elif ropts.get("to_semicolon", True) not in ("", "0", False):
@@ -1384,7 +1415,7 @@ def site_rewrite(ctx, sf, it, rule, anchor, nth, ropts, what):
                 call = call.replace(f"${n_}", " ".join(args_[n_ - 1].split()))
             if re.search(r"\$\d", call):
                 raise LostAnchor(f"{what}: O1 argument capture: the call in {anchor!r} has {len(args_)} arguments")
-        edits.append(Edit(s, end, call + (";" if (end != e or toks[b - 1].text == ";") else "")))
+        edits.append(Edit(s, end, call + ("\n" if ropts.get("to_body_end") else ";" if (end != e or toks[b - 1].text == ";") else "")))
         ctx.fire("O1", sf, s, f"opaque statement -> {call}")
     elif rule == "N12L":
         # alpha-renaming of a local that shadows a parameter (`let pos = pos.into();`): the binding in the anchor and every
